@@ -367,6 +367,21 @@ class Exec:
         r = s.check()
         return r != z3.unsat
 
+    def decides(self, st, cond):
+        """True / False when the path condition (quantified facts included) entails cond / its negation, else None.
+        Only `unsat` answers are used, within a short budget."""
+        for want, c in ((True, z3.Not(cond)), (False, cond)):
+            sv = z3.Solver()
+            sv.set("timeout", 1500)
+            for h in st.pc:
+                sv.add(h)
+            for g in self.guards:
+                sv.add(g)
+            sv.add(c)
+            if sv.check() == z3.unsat:
+                return want
+        return None
+
     # -- top level ----------------------------------------------------------
     def run(self):
         c = self.c
@@ -829,6 +844,17 @@ class Exec:
             results.append((st0, cond))
         for st0, cond in results:
             ncond = z3.Not(cond)
+            if _has_quantifier(cond):
+                # a quantified test (`x in seq`, any/all over a symbolic sequence): when the path condition already decides
+                # it, take that arm alone and do not add the implied (quantified, solver-slowing) fact to the path
+                decided = self.decides(st0, cond)
+                if decided is not None:
+                    arm, other = (node.body, node.orelse) if decided else (node.orelse, node.body)
+                    self.note_drop(other, "unreachable: the path condition decides the test")
+                    s1 = st0.copy()
+                    s1.trail.append((node.lineno, decided))
+                    yield from self.exec_block(arm, s1)
+                    continue
             outs = []
             for arm, c in ((node.body, cond), (node.orelse, ncond)):
                 s1 = st0.copy()
@@ -1755,6 +1781,12 @@ class Exec:
                 t = z3.Select(b.has, S.as_int(self.need_int(a, st, node)))
             elif isinstance(b, TupV):
                 t = z3.Or(*[self.equal(a, x, st, node) for x in b.items]) if b.items else z3.BoolVal(False)
+            elif isinstance(b, SeqV):
+                # x in seq  <=>  not (every element differs from x)
+                xv = S.as_int(self.need_int(a, st, node))
+                jj = z3.Int("j!in")
+                t = z3.Not(z3.ForAll([jj], z3.Implies(z3.And(0 <= jj, jj < S.f_len(b.t)), S.f_at(b.t, jj) != xv),
+                                     patterns=[S.f_at(b.t, jj)]))
             elif isinstance(b, tuple) and b and b[0] == "sset":
                 t = z3.Or(*[self.equal(a, x, st, node) for x in b[1]]) if b[1] else z3.BoolVal(False)
             else:
